@@ -451,6 +451,19 @@ def goodness (s : S) (c : Nat) (ins : Timbre) : Except Fault Int :=
     | some jd => .error (.oob s!"m_midiChannels[{jd.midCh}]")
     | none => .ok (goodnessP s.midi s.chanAlloc s.musicMode chan ins)
 
+/-- the selection loop of realTime_NoteOn over the chip channels still to visit: the running best channel and its score
+    (`bs` is an `int32_t` the score is cast to) -/
+def selectFrom (s : S) (ins : Timbre) : List Nat → Option Nat → Int → Except Fault (Option Nat)
+  | [], best, _ => .ok best
+  | a :: rest, best, bs =>
+    match goodness s a ins with
+    | .error f => .error f
+    | .ok sc => if sc > bs then selectFrom s ins rest (some a) (toSigned 32 (ofSigned 32 sc)) else selectFrom s ins rest best bs
+
+/-- the chip channel realTime_NoteOn gives a new note: the first one with the greatest score -/
+def selectChannel (s : S) (ins : Timbre) : Except Fault (Option Nat) :=
+  selectFrom s ins (List.range (liveChannels s)) none (-2147483647)
+
 /-- killSustainingNotes (with the held-key handling) -/
 def killSustainingNotes (midCh : Option Nat) (thisChan : Option Nat) (susType : Nat) : M Unit := do
   let s ← get
@@ -648,21 +661,15 @@ def realTimeNoteOn (channel0 note0 velocity0 : Nat) : M Bool := do
     -- dummy note for the blank instrument
     let chNow ← getMidi channel
     let dummy : Note := { key := note, vol := 0, vibrato := 0, noteTone := 0, curTone := some 0, gliding := false, midiins := 0,
-                          isPerc := false, isBlank := true, onExt := false, ttl := 0, ins := Ins.empty, phys := [] }
+                          isPerc := r.isPerc, isBlank := true, onExt := false, ttl := 0, ins := Ins.empty, phys := [] }
     let notes := if (findNote chNow note).isSome then chNow.notes.map (fun n => if n.key == note then dummy else n) else chNow.notes ++ [dummy]
     setMidi channel { chNow with notes := notes, portamentoSource := (if note ≥ 128 then (note : Int) - 256 else note) }
     return false
   -- choose the chip channel
   let sNow ← get
-  let mut best : Option Nat := none
-  let mut bs : Int := -2147483647
-  for a in List.range (liveChannels sNow) do
-    let sc ← match goodness sNow a ains.op with
-      | .ok x => pure x
-      | .error f => fault f
-    if sc > bs then
-      bs := toSigned 32 (ofSigned 32 sc)
-      best := some a
+  let best ← match selectChannel sNow ains.op with
+    | .ok b => pure b
+    | .error f => fault f
   match best with
   | none => return false
   | some c =>
